@@ -635,9 +635,12 @@ impl Sim {
                 true,
             ));
             let stranger = m.actors.first().cloned().unwrap_or_else(|| "nobody".into());
+            // if LP tokens are parked on the pair, claim exactly those (a forged withdraw hook could
+            // only get through the final burn when the pair holds that much LP)
+            let parked = self.ledger.get(&p.lp_key(), &p.addr);
             let w = Cw20ReceiveMsg {
                 sender: stranger.clone(),
-                amount: Uint128::new(1000),
+                amount: Uint128::new(if parked > 0 { parked } else { 1000 }),
                 msg: to_binary(&haloswap::pair::Cw20HookMsg::WithdrawLiquidity {}).unwrap(),
             };
             msgs.push((p.addr.clone(), j(serde_json::json!({ "receive": w })), false));
